@@ -49,7 +49,22 @@ pub fn solve_real_lp_problem_slow_simplex(
 
     let solution = canonical_form.solve(limit);
     match solution {
-        Ok(optimal_tableau) => Ok(optimal_tableau.as_lp_solution()),
+        Ok(optimal_tableau) => {
+            let solution = optimal_tableau.as_lp_solution();
+            // on rows of size 1e308 (a range that ran away) the pivots end in
+            // NaN or in a point that violates the model: that is no solution
+            let values = lp
+                .variables()
+                .iter()
+                .map(|name| solution.value_of(name).unwrap_or(f64::NAN))
+                .collect::<Vec<_>>();
+            if !crate::solvers::common::point_satisfies_model(lp, &values) {
+                return Err(SolverError::Other(
+                    "the simplex returned a point that violates the model".to_string(),
+                ));
+            }
+            Ok(solution)
+        }
         Err(e) => match e {
             SimplexError::IterationLimitReached => Err(SolverError::LimitReached),
             SimplexError::Unbounded => Err(SolverError::Unbounded),
